@@ -636,6 +636,9 @@ def rule_bookkeeping(ctx):
                             seen_reorder = True
             if e.kind == 'store_sub' and e.b[0] == 'sub' and e.b[1] == DIMS and e.c[0] == 'sub' and e.b[2] == e.c[2]:
                 seen_int = True
+            # ... or the entry is moved in one go: indices[dims[k]] = indices.pop(k)
+            if e.kind == 'store_sub' and e.b[0] == 'sub' and e.b[1] == DIMS and e.c[0] == 'call' and T.call_name(e.c) == 'pop' and e.c[2][:1] == (e.b[2],):
+                seen_int = True
     if not seen_reorder:
         ctx.violated('R6', fi, 'dict -> tuple', 'a {dimension: index} mapping must be laid out in the order of self.dims, '
                      'with slice(None) for absent dimensions')
